@@ -153,6 +153,18 @@ CLAIMED = {
             'identical before/after auto-design with a RamanFiber for 4 user settings.',
             'floats as reals; pipeline-level harness with concrete parameters (EOL=0); JSON passed as dicts',
             'DESIGN.md §2 C17'),
+    'C20': ('crosshair+symx',
+            'CrossHair symbolic execution (z3) of the real spreadsheet converters above the cell layer on bounded symbolic sheets, plus '
+            'exhaustive value-forking (symx) of small discrete sheet spaces; counterexamples replayed un-instrumented',
+            'xls_to_json_data (parse_excel sanity logic, sanity_check, element/connection builders) on symbolic Nodes/Links sheets (2-4 '
+            'sites typed ROADM/ILA/FUSED, 1-4 links incl. dangling/duplicate ones, east/west distances and cable ids): inconsistent '
+            'workbooks rejected with NetworkTopologyError and nothing else, consistent ones give the described elements, unique names, '
+            'existing endpoints, one fibre per direction with the sheet values (west defaulting to east); Eqpt rows land on the amplifier '
+            'facing the named neighbour; a Service row converts units, route list, strictness and disjunction group; route-name correction '
+            'for every <=3-name route over a 7-name vocabulary (value-forked). CrossHair verdicts are time-boxed (bounded bug hunting) '
+            'except where it reports "Confirmed over all paths".',
+            'cell layer (xlrd/openpyxl, cell typing) replaced by in-memory rows; time-boxed CrossHair; small vocabularies',
+            'DESIGN.md §2 C20'),
     'C19': ('symx',
             'bounded symbolic execution of the real response-building and CSV export code with z3 (exact two-decimal rounding); models '
             'replayed on the float code',
